@@ -95,12 +95,73 @@ theorem failMsg_none_iff (o : ItemOutcome β) : o.failMsg = none ↔ o.isOk = tr
 theorem okVal_some_iff (o : ItemOutcome β) (v : β) : o.okVal = some v ↔ o = .ok v := by
   cases o <;> simp [ItemOutcome.okVal]
 
-theorem assembleOf_outcomes (P : Pool α β) :
-    assembleOf (P.outcomes.map ItemOutcome.okVal) (P.outcomes.map ItemOutcome.failMsg) = expected P := by
-  simp only [assembleOf, expected, any_failMsg]
-  cases h : P.outcomes.all ItemOutcome.isOk <;> simp
+theorem assembleOf_map (l : List (ItemOutcome β)) :
+    assembleOf (l.map ItemOutcome.okVal) (l.map ItemOutcome.failMsg) = expectedOf l := by
+  simp only [assembleOf, expectedOf, any_failMsg]
+  cases h : l.all ItemOutcome.isOk <;> simp
+
+/-! ### what the declarative output says, for any list of per-item outcomes -/
+
+theorem expectedOf_success {l : List (ItemOutcome β)} {d : List (Option β)} (h : expectedOf l = .success d) :
+    l.all ItemOutcome.isOk = true ∧ d = l.map ItemOutcome.okVal := by
+  simp only [expectedOf] at h
+  split at h
+  · rename_i hall
+    cases h; exact ⟨hall, rfl⟩
+  · cases h
+
+theorem expectedOf_failure {l : List (ItemOutcome β)} {d : List (Nat × β)} {e : List (Nat × String)}
+    (h : expectedOf l = .failure d e) :
+    l.all ItemOutcome.isOk = false ∧ d = indexed (l.map ItemOutcome.okVal) ∧ e = indexed (l.map ItemOutcome.failMsg) := by
+  simp only [expectedOf] at h
+  split at h
+  · cases h
+  · rename_i hall
+    cases h; exact ⟨by simpa using hall, rfl, rfl⟩
+
+theorem mem_errors_iff (l : List (ItemOutcome β)) (i : Nat) (m : String) :
+    (i, m) ∈ indexed (l.map ItemOutcome.failMsg) ↔ ∃ o, l[i]? = some o ∧ o.failMsg = some m := by
+  rw [mem_indexed, List.getElem?_map]
+  cases hx : l[i]? <;> simp
+
+theorem mem_data_iff (l : List (ItemOutcome β)) (i : Nat) (v : β) :
+    (i, v) ∈ indexed (l.map ItemOutcome.okVal) ↔ l[i]? = some (.ok v) := by
+  rw [mem_indexed, List.getElem?_map]
+  cases hx : l[i]? <;> simp [okVal_some_iff]
+
+/-- every index of the list is a key of exactly one of the two maps, and the maps have no other keys -/
+theorem keys_partition (l : List (ItemOutcome β)) (i : Nat) :
+    (i < l.length ↔ ((∃ m, (i, m) ∈ indexed (l.map ItemOutcome.failMsg)) ∨
+                      (∃ v, (i, v) ∈ indexed (l.map ItemOutcome.okVal)))) ∧
+    ¬ ((∃ m, (i, m) ∈ indexed (l.map ItemOutcome.failMsg)) ∧ (∃ v, (i, v) ∈ indexed (l.map ItemOutcome.okVal))) := by
+  constructor
+  · constructor
+    · intro hi
+      have hx : l[i]? = some l[i] := List.getElem?_eq_getElem hi
+      cases ho : l[i] with
+      | ok v => exact Or.inr ⟨v, (mem_data_iff l i v).mpr (by rw [hx, ho])⟩
+      | otherOutput id v => exact Or.inl ⟨_, (mem_errors_iff l i _).mpr ⟨_, hx, by rw [ho]; rfl⟩⟩
+      | err m => exact Or.inl ⟨_, (mem_errors_iff l i _).mpr ⟨_, hx, by rw [ho]; rfl⟩⟩
+    · rintro (⟨m, hm⟩ | ⟨v, hv⟩)
+      · obtain ⟨o, ho, _⟩ := (mem_errors_iff l i m).mp hm
+        exact (List.getElem?_eq_some_iff.mp ho).1
+      · have ho := (mem_data_iff l i v).mp hv
+        exact (List.getElem?_eq_some_iff.mp ho).1
+  · rintro ⟨⟨m, hm⟩, ⟨v, hv⟩⟩
+    obtain ⟨o, ho, hmsg⟩ := (mem_errors_iff l i m).mp hm
+    have hv' := (mem_data_iff l i v).mp hv
+    rw [ho] at hv'; cases hv'
+    simp [ItemOutcome.failMsg] at hmsg
 
 /-! ### the arrays of a completed pool -/
+
+theorem effOutcomes_getElem? (P : Pool α β) (s : PoolState α β) (i : Nat) :
+    (effOutcomes P s)[i]? =
+      (P.xs[i]?).map (fun a => if s.phase[i]? = some .aborted then .err ItemOutcome.abortMsg else P.exec i a) := by
+  simp [effOutcomes, List.getElem?_mapIdx]
+
+theorem effOutcomes_length (P : Pool α β) (s : PoolState α β) : (effOutcomes P s).length = P.xs.length := by
+  simp [effOutcomes]
 
 theorem allExecuted_phase {s : PoolState α β} (h : allExecuted s = true) {i : Nat} (hi : i < s.phase.length) :
     s.phase[i]? = some .done := by
@@ -109,44 +170,79 @@ theorem allExecuted_phase {s : PoolState α β} (h : allExecuted s = true) {i : 
   rw [List.getElem?_eq_getElem hi]
   simpa using this
 
-theorem final_arrays {P : Pool α β} {s : PoolState α β} (hI : Inv P s) (hall : allExecuted s = true) :
-    s.outputs = P.outcomes.map ItemOutcome.okVal ∧ s.errors = P.outcomes.map ItemOutcome.failMsg := by
+theorem allDone_phase {s : PoolState α β} (h : allDone s = true) {i : Nat} (hi : i < s.phase.length) :
+    s.phase[i]? = some .done ∨ s.phase[i]? = some .aborted := by
+  simp only [allDone, List.all_eq_true] at h
+  have := h (s.phase[i]) (List.getElem_mem hi)
+  rw [List.getElem?_eq_getElem hi]
+  cases hph : s.phase[i] <;> simp [hph, isFinal] at this ⊢
+
+/-- when `wg.Wait()` returns — cancelled or not — the two arrays hold exactly the effective outcome of every item -/
+theorem final_arrays {P : Pool α β} {s : PoolState α β} (hI : Inv P s) (hd : allDone s = true) :
+    s.outputs = (effOutcomes P s).map ItemOutcome.okVal ∧ s.errors = (effOutcomes P s).map ItemOutcome.failMsg := by
+  have key : ∀ j, j < P.n →
+      s.outputs[j]? = Option.map ItemOutcome.okVal (effOutcomes P s)[j]? ∧
+      s.errors[j]? = Option.map ItemOutcome.failMsg (effOutcomes P s)[j]? := by
+    intro j hj
+    have hx : P.xs[j]? = some (P.xs[j]'hj) := List.getElem?_eq_getElem hj
+    rw [effOutcomes_getElem?, hx]
+    rcases allDone_phase hd (i := j) (by rw [hI.lenPhase]; exact hj) with hph | hph
+    · obtain ⟨h1, h2⟩ := hI.doneRes j _ hx hph
+      simp [hph, h1, h2]
+    · obtain ⟨h1, h2⟩ := hI.abortedRes j hph
+      simp [hph, h1, h2, ItemOutcome.okVal, ItemOutcome.failMsg]
   constructor
   · apply List.ext_getElem?
     intro j
-    rw [List.getElem?_map, outcomes_getElem?]
+    rw [List.getElem?_map]
     by_cases hj : j < P.n
-    · have hx : P.xs[j]? = some (P.xs[j]'hj) := List.getElem?_eq_getElem hj
-      have hph := allExecuted_phase hall (i := j) (by rw [hI.lenPhase]; exact hj)
-      rw [(hI.doneRes j _ hx hph).1, hx]; rfl
+    · exact (key j hj).1
     · have h1 : s.outputs[j]? = none := List.getElem?_eq_none (by rw [hI.lenOut]; omega)
-      have h2 : P.xs[j]? = none := List.getElem?_eq_none (by simp only [Pool.n] at hj; omega)
+      have h2 : (effOutcomes P s)[j]? = none :=
+        List.getElem?_eq_none (by rw [effOutcomes_length]; simp only [Pool.n] at hj; omega)
       rw [h1, h2]; rfl
   · apply List.ext_getElem?
     intro j
-    rw [List.getElem?_map, outcomes_getElem?]
+    rw [List.getElem?_map]
     by_cases hj : j < P.n
-    · have hx : P.xs[j]? = some (P.xs[j]'hj) := List.getElem?_eq_getElem hj
-      have hph := allExecuted_phase hall (i := j) (by rw [hI.lenPhase]; exact hj)
-      rw [(hI.doneRes j _ hx hph).2, hx]; rfl
+    · exact (key j hj).2
     · have h1 : s.errors[j]? = none := List.getElem?_eq_none (by rw [hI.lenErr]; omega)
-      have h2 : P.xs[j]? = none := List.getElem?_eq_none (by simp only [Pool.n] at hj; omega)
+      have h2 : (effOutcomes P s)[j]? = none :=
+        List.getElem?_eq_none (by rw [effOutcomes_length]; simp only [Pool.n] at hj; omega)
       rw [h1, h2]; rfl
 
 /-- without cancellation nothing is aborted: when `wg.Wait()` returns every item went through `Execute` -/
 theorem allExecuted_of_allDone {P : Pool α β} {s : PoolState α β} (hI : Inv P s) (hc : s.cancelled = false)
     (hd : allDone s = true) : allExecuted s = true := by
-  obtain ⟨_, hab⟩ := hI.live hc
+  have hab := hI.noAbort hc
   simp only [allExecuted, allDone, List.all_eq_true] at hd ⊢
   intro ph hm
   have hna := (List.countP_eq_zero.mp hab) ph hm
   have hf := hd ph hm
   cases ph <;> simp [isFinal] at hf hna ⊢
 
+/-- if nothing was aborted the effective outcomes are the outcomes of the items -/
+theorem effOutcomes_of_allExecuted {P : Pool α β} {s : PoolState α β} (hI : Inv P s) (hall : allExecuted s = true) :
+    effOutcomes P s = P.outcomes := by
+  apply List.ext_getElem?
+  intro j
+  rw [effOutcomes_getElem?, outcomes_getElem?]
+  cases hx : P.xs[j]? with
+  | none => rfl
+  | some a =>
+    have hj : j < s.phase.length := by
+      rw [hI.lenPhase]; exact (List.getElem?_eq_some_iff.mp hx).1
+    simp [allExecuted_phase hall hj]
+
+/-- the assembled output of ANY completed pool (closed or not) is the declarative output of its effective outcomes -/
+theorem assemble_done {P : Pool α β} {s : PoolState α β} (hI : Inv P s) (hd : allDone s = true) :
+    assemble s = expectedOf (effOutcomes P s) := by
+  obtain ⟨ho, he⟩ := final_arrays hI hd
+  rw [assemble, ho, he, assembleOf_map]
+
 theorem assemble_complete {P : Pool α β} {s : PoolState α β} (hI : Inv P s) (hc : s.cancelled = false)
     (hd : allDone s = true) : assemble s = expected P := by
-  obtain ⟨ho, he⟩ := final_arrays hI (allExecuted_of_allDone hI hc hd)
-  rw [assemble, ho, he, assembleOf_outcomes]
+  rw [assemble_done hI hd, effOutcomes_of_allExecuted hI (allExecuted_of_allDone hI hc hd), expected]
 
 /-! ### each item is executed at most once, with its own item as input -/
 
@@ -191,7 +287,7 @@ theorem runInv_step {P : Pool α β} {s s' : PoolState α β} (hR : RunInv P s) 
             simp only [hij, if_false, hne]
             simpa using this
       · cases h
-  | finish i release =>
+  | finish i =>
     simp only [step] at h
     split at h
     · cases h
@@ -216,7 +312,7 @@ theorem runInv_step {P : Pool α β} {s s' : PoolState α β} (hR : RunInv P s) 
     split at h
     · cases h
     · cases h; exact ⟨hR.ownInput, hR.once⟩
-  | abort i steal =>
+  | abort i =>
     simp only [step] at h
     split at h
     · rename_i hok
